@@ -1486,6 +1486,48 @@ pub fn corpus() -> Vec<CorpusProg> {
         ],
         Traits { shared: true, ..tickp(true, &["across_ticks", "atomic", "keyed", "enumerate", "fold_keyed"]) },
     );
+    // ------------------------------------------------------------------ typed promises (C33)
+    fn other(classes: &[&str]) -> Traits {
+        Traits { safe: false, stateful_top: true, ..safe(true, classes) }
+    }
+    b.add(
+        "m_reduce_watermark",
+        &["(i64,i64)", "i64"],
+        &[],
+        &[
+            ("(usize,i64,i64)", Final, Some(Promise::Typed), Ref::Eventual(|_| vec![])),
+            ("(usize,i64,i64)", Final, Some(Promise::Typed), Ref::Eventual(|_| vec![])),
+            ("(usize,i64,i64)", Final, Some(Promise::Typed), Ref::Eventual(|_| vec![])),
+        ],
+        other(&["reduce_watermark", "keyed", "typed-promise"]),
+    );
+    b.add(
+        "m_typed_folds",
+        &["(i64,i64)"],
+        &[],
+        &[
+            ("(usize,i64,i64)", Final, Some(Promise::Typed), Ref::Eventual(|_| vec![])),
+            ("(usize,i64,i64)", Final, Some(Promise::Typed), Ref::Eventual(|_| vec![])),
+            ("(usize,i64,usize)", Final, Some(Promise::Typed), Ref::Eventual(|_| vec![])),
+            ("(usize,i64,i64)", Final, Some(Promise::Typed), Ref::Eventual(|_| vec![])),
+            ("(usize,i64,i64)", Final, Some(Promise::Typed), Ref::Eventual(|_| vec![])),
+        ],
+        other(&["fold_keyed", "value_counts", "reduce_keyed", "keyed", "typed-promise"]),
+    );
+    // ------------------------------------------------------------------ by_ref / by_mut (C41)
+    for (name, n_out, inputs) in [
+        ("r_ref_only", 3usize, vec![]),
+        ("r_mut_only", 2, vec![]),
+        ("r_ref_then_mut", 3, vec![]),
+        ("r_mut_then_ref", 3, vec![]),
+        ("r_ref_mut_ref", 4, vec![]),
+        ("r_two_collections", 4, vec![]),
+        ("r_tick_ref_mut", 4, vec!["i64"]),
+    ] {
+        let outs: Vec<(&str, OutKind, Option<Promise>, Ref)> = (0..n_out).map(|_| ("i64", Seq, None, Ref::Eventual(|_| vec![]))).collect();
+        let ins: Vec<&str> = inputs;
+        b.add(name, &ins, &[], &outs, Traits { shared: true, ..other(&["by_ref", "by_mut", "handoff-reference"]) });
+    }
     trusted(&mut b);
     // reproducers of confirmed findings
     b.add(
@@ -1807,6 +1849,39 @@ fn trusted(b: &mut B) {
         trust(true, &["get_max_key", "keyed"]),
     );
     advs.push(vec![Adv::KeyInterleave]);
+    fn distinct_i(v: Vec<i64>) -> Vec<i64> {
+        let mut seen = vec![];
+        for x in v {
+            if !seen.contains(&x) {
+                seen.push(x);
+            }
+        }
+        seen
+    }
+    for name in ["x_unique_top", "x_unique_atomic_top"] {
+        b.add(
+            name,
+            &["i64", "i64"],
+            &[],
+            &[
+                ("i64", Bag, None, Ref::Eventual(|f| enc(distinct_i(ints(f, 0))))),
+                ("i64", Seq, None, Ref::Eventual(|f| enc(distinct_i(ints(f, 1))))),
+            ],
+            trust(false, &["unique", if name.contains("atomic") { "atomic" } else { "top" }]),
+        );
+        advs.push(vec![Adv::PermDup, Adv::Stutter]);
+    }
+    b.add(
+        "x_keys_top",
+        &["(i64,i64)"],
+        &[],
+        &[
+            ("i64", Bag, None, Ref::Eventual(|f| enc(keys_in_order(&kvs(f, 0))))),
+            ("i64", Bag, None, Ref::Eventual(|f| enc(keys_in_order(&kvs(f, 0))))),
+        ],
+        trust(false, &["keys", "unique", "atomic", "keyed"]),
+    );
+    advs.push(vec![Adv::PermDup]);
     for (i, a) in advs.into_iter().enumerate() {
         // these programs are keyed by construction where the adversary says so
         for (j, inp) in b.progs[start + i].spec.inputs.iter_mut().enumerate() {
